@@ -45,7 +45,7 @@ def prove_function(book, c, tier):
         if os.environ.get("PYVC_DEBUG"):
             raise
         out["obligations"].append({"name": c.qualname + "/in-subset", "status": "undecided",
-                                   "reason": "STALE-CONTRACT or engine limit: %s: %s | %s" % (type(e).__name__, e, traceback.format_exc(limit=3).replace("\n", " | ")[-600:])})
+                                   "reason": "STALE-CONTRACT or engine limit: %s: %s | %s" % (type(e).__name__, e, traceback.format_exc(limit=int(os.environ.get("PYVC_TB", "3"))).replace("\n", " | ")[-600:])})
         return out, [], ex
     out["paths"] = ex.paths
     out["dropped"] = sorted(ex.dropped)
